@@ -47,6 +47,7 @@ FILE_KINDS = ["delete", "zero", "truncate", "garbage", "directory"]
 BREAKING = ({("layout", "models_dropped"), ("layout", "models_wrong"), ("layout", "models_view")}
             | {("file", k) for k in FILE_KINDS})
 LOCK_MODES = ["reserved", "exclusive", "release"]
+MUTATE_KINDS = ["add_class", "extend", "rename_first", "clear_classes"]   # the caller edits the returned tree in place
 KNOWN_TAG_LASTHIT = "lasthit-text-affinity-after-init-same-process"
 SWAP = "index_swap_restart"   # rowids behind two keys of the primary-key index swapped, then a process restart
 DAY = 86400 * 10**6
@@ -104,6 +105,16 @@ def probe_source():
     tries_loads = [n for n in pyast.walk(tree) if isinstance(n, pyast.Try) and _calls(n.body, is_loads)]
     tries_integ = [n for n in pyast.walk(tree) if isinstance(n, pyast.Try) and _calls(n.body, is_integrity)]
     n_loads = sum(1 for n in pyast.walk(tree) if isinstance(n, pyast.Call) and is_loads(n))
+    if n_loads == 1 and not tries_loads:
+        # one level of indirection: the single loads() sits in a module-level helper whose body has no try of its own,
+        # and that helper is called exactly once in the module, inside a try (e.g. an lru_cache'd _unpickle_tree)
+        helpers = [f for f in tree.body if isinstance(f, pyast.FunctionDef) and _calls(f.body, is_loads)
+                   and not any(isinstance(n, pyast.Try) for n in pyast.walk(f))]
+        if len(helpers) == 1:
+            def is_helper(c, name=helpers[0].name):
+                return isinstance(c.func, pyast.Name) and c.func.id == name
+            if sum(1 for n in pyast.walk(tree) if isinstance(n, pyast.Call) and is_helper(n)) == 1:
+                tries_loads = [n for n in pyast.walk(tree) if isinstance(n, pyast.Try) and _calls(n.body, is_helper)]
     if len(tries_loads) != 1 or n_loads != 1:
         raise core.Fail("expected exactly one pickle.loads inside exactly one try (found %d calls, %d try)"
                         % (n_loads, len(tries_loads)))
@@ -282,6 +293,8 @@ def gen_history(rng, texts, nops, with_locks=False):
             first_use = _first_use(ops)
             days = rng.choice(DAYS_EXTREME) if rng.random() < (0.5 if first_use else 0.15) else rng.choice(DAYS_COMMON)
             ops.append(["parse", ti, days, int(rng.random() < 0.35)])
+            if rng.random() < 0.12:
+                ops.append(["mutate", rng.choice(MUTATE_KINDS)])
             if ti not in parsed:
                 parsed.append(ti)
         elif x < 0.58:
@@ -302,7 +315,7 @@ def gen_history(rng, texts, nops, with_locks=False):
     return {"texts": texts, "ops": ops}
 
 
-def corpus(texts):
+def corpus(texts, all_retypes=True, rot=0):
     """targeted short histories: every mechanism / fault kind the property names, with and without a reload"""
     g, g2, b = 0, 1, len(texts) - 1
     P = lambda t, d=30, u=0: ["parse", t, d, u]  # noqa: E731
@@ -322,7 +335,10 @@ def corpus(texts):
             hs.append([P(g), [fam, k], ["reload"], P(g), P(b), P(g)])
             hs.append([[fam, k], P(g), P(g)])
             hs.append([P(g), ["reload"], [fam, k], P(g2), P(g)])
-    for k in RETYPE_POOL:     # a pre-existing database that differs from the expected layout in ONE column declaration
+    for k in MUTATE_KINDS:    # the caller edits the tree it got, then asks for the same text again (hit and miss paths)
+        hs.append([P(g), P(g), ["mutate", k], P(g), ["mutate", k], P(g), P(g2), ["mutate", k], P(g2), ["reload"], P(g),
+                   ["mutate", k], P(g), P(g)])
+    for k in (RETYPE_POOL if all_retypes else RETYPE_POOL[rot % 2::2]):     # a pre-existing database that differs from the expected layout in ONE column declaration
         hs.append([P(g), P(g2), ["advance", 3 * DAY], ["layout", k], ["reload"], P(g, 2), P(g2, 2), P(g, 2, 1)])
     for mode in ("reserved", "exclusive"):     # another connection holds a lock during the calls
         hs.append([P(g), P(g2), ["lock", mode], P(g), P(g, 30, 1), P(2), P(b), ["reload"], P(g), P(g2, 30, 1),
@@ -516,6 +532,8 @@ def encode_case(case, res):
             ops.append("CorruptEntry %s %s" % (cq_nat(op[1]), enc_blob(ob["blob"])))
         elif k == "layout":
             ops.append("CorruptLayout %s" % layout_coq(op[1]))
+        elif k == "mutate":
+            continue                # the returned tree is a value in the model: editing it changes nothing
         elif k == "lock":
             raise ValueError("histories with lock ops are judged by the oracle only")
         elif k == "file" and op[1] == "directory":
@@ -627,14 +645,14 @@ def run(ctx):
     base_texts = gen_texts(rng)
     cases = [{"texts": base_texts, "ops": p} for p in PROBES]
     n_probe = len(cases)
-    cases += corpus(base_texts)
+    cases += corpus(base_texts, all_retypes=(ctx.tier == "thorough"), rot=ctx.seed)   # quick: every other retype kind
     cases += family_corpus(rng)
     try:
         cases += json.load(open(core.VERIF + "/corpus/C01/cases.json"))
     except OSError:
         pass
     n_corpus = len(cases) - n_probe
-    n_rand = ctx.scaled(200, 4000)
+    n_rand = ctx.scaled(160, 4000)
     max_ops = ctx.scaled(12, 24)
     texts = base_texts
     for i in range(n_rand):
